@@ -859,9 +859,9 @@ fn sample_of(v: &Val, json_mode: bool) -> serde_json::Value {
 
 pub fn run(cfg: &RunCfg, json_mode: bool) -> Report {
     let (id, rule): (&'static str, &str) = if json_mode {
-        ("C17", "values of every serde type (OrderType, OrderUpdate, OrderId, Side, TimeInForce, PegReferenceType, Transaction, TransactionList, MatchResult, PriceLevel, PriceLevelSnapshot with orders and arbitrary aggregate fields, PriceLevelSnapshotPackage, PriceLevelStatistics) from boundary-biased generators (0,1,79..81,2^32,2^53+-1,2^63,u64::MAX, i64::MIN/MAX, nil/max/random UUID and ULID, GTD at the limits, None amount, lists 0..8); oracle: serde_json::from_str(to_string(x)) == x field for field, and the same value again through from_reader, from_slice, to_value->from_value, the key-sorted text of the Value and pretty-printed text (levels: price + order set + aggregates); a package must keep version/checksum, still validate() and restore the same level. Non-trivial = value with an integer > 2^53 or from the boundary set, a GTD, a ULID, a None amount, or >=2 list elements/orders; distinct = hash of the value.")
+        ("C17", "values of every serde type (OrderType, OrderUpdate, OrderId, Side, TimeInForce, PegReferenceType, Transaction, TransactionList, MatchResult, PriceLevel, PriceLevelSnapshot with orders and arbitrary aggregate fields, PriceLevelSnapshotPackage, PriceLevelStatistics) from boundary-biased generators (0,1,79..81,2^32,2^53+-1,2^63,u64::MAX, i64::MIN/MAX, nil/max/random UUID and ULID, GTD at the limits, None amount, lists 0..8); oracle: serde_json::from_str(to_string(x)) == x field for field, and the same value again through from_reader, from_slice, to_value->from_value, the key-sorted text of the Value and pretty-printed text (levels: price + order set + aggregates); a package must keep version/checksum, still validate() and restore the same level. Since rounds 4-5: damaged copies are decoded between two decodings of the intact JSON; each value is also serialized into a writer that fails after a generated number of bytes and must serialize identically afterwards (to_string, to_vec); snapshots may list the same shared allocation twice; packages carrying arbitrary checksum text (quotes, backslashes, control characters, non-ASCII) and other versions must survive to_json / from_json and serde. Non-trivial = value with an integer > 2^53 or from the boundary set, a GTD, a ULID, a None amount, or >=2 list elements/orders; distinct = hash of the value.")
     } else {
-        ("C16", "values of every text-codec type (OrderType, OrderUpdate, OrderId, Side, TimeInForce, PegReferenceType, Transaction, TransactionList, MatchResult, PriceLevel, PriceLevelSnapshot summary, PriceLevelStatistics) from boundary-biased generators (same value space as C17); oracle: T::from_str(&x.to_string()) is Ok(y) with y == x field for field (level: price + order set + aggregates; snapshot summary: price + aggregates). Non-trivial = value with a boundary number, a GTD, a ULID, a None amount, or >=2 list elements/orders; distinct = hash of the value.")
+        ("C16", "values of every text-codec type (OrderType, OrderUpdate, OrderId, Side, TimeInForce, PegReferenceType, Transaction, TransactionList, MatchResult, PriceLevel, PriceLevelSnapshot summary, PriceLevelStatistics) from boundary-biased generators (same value space as C17); oracle: T::from_str(&x.to_string()) is Ok(y) with y == x field for field (level: price + order set + aggregates; snapshot summary: price + aggregates). Since rounds 4-5: decoding must be a function of the text alone - damaged copies of each encoding are fed to the same decoder between two decodings of the intact text on the same thread, and printing twice must give the same text; snapshots may list the same shared order allocation twice. Non-trivial = value with a boundary number, a GTD, a ULID, a None amount, or >=2 list elements/orders; distinct = hash of the value.")
     };
     let mut rep = Report::new(id, "exploration", rule);
     rep.assumptions = vec![
